@@ -45,7 +45,7 @@ def cases(tier, seed):
             nc = int(rng.integers(1, 4))
             nt = int(rng.integers(2, 41))
             yield {"t": kind, "ni": ni, "nc": nc, "nt": nt, "unequal": bool(rng.random() < 0.5), "cells": "SA"[int(rng.integers(0, 2))],
-                   "values": ["id", "random"][int(rng.integers(0, 2))], "p": int(rng.integers(0, 10 ** 6)), "dseed": int(rng.integers(0, 2 ** 31))}
+                   "values": ["id", "random", "int"][int(rng.integers(0, 3))], "p": int(rng.integers(0, 10 ** 6)), "dseed": int(rng.integers(0, 2 ** 31))}
 
 
 # ---------------------------------------------------------------------------------
@@ -62,11 +62,14 @@ def _panel(case, allow_unequal=True, force_nc=None, min_len=2):
         for j in range(nc):
             if case["values"] == "id":
                 row.append(np.array([1e6 * (i + 1) + 1e3 * (j + 1) + t for t in range(lens[i])], dtype=float))
+            elif case["values"] == "int":
+                row.append(rng.integers(-60, 60, size=lens[i]).astype(float))      # integer-typed cells below; the documented functions are real-valued
             else:
                 row.append(np.round(rng.normal(0, 10, size=lens[i]), 5))
         data.append(row)
     cont = (lambda v: pd.Series(v)) if case.get("cells", "S") == "S" else (lambda v: np.array(v))
-    df = pd.DataFrame({"dim_%d" % j: [cont(data[i][j].copy()) for i in range(ni)] for j in range(nc)})
+    typed = (lambda a: a.astype(np.int64)) if case["values"] == "int" else (lambda a: a.copy())
+    df = pd.DataFrame({"dim_%d" % j: [cont(typed(data[i][j])) for i in range(ni)] for j in range(nc)})
     return data, df, lens
 
 
